@@ -154,8 +154,35 @@ def handleCF : List String → String
     | _, _, _, _ => "bad-op"
   | _ => "bad-op"
 
+/-! `pp <allow> <deny> <fallback> <network> <peer> <claim> <tbl>` — the PROXY protocol listener wrapper (see
+harness/internal/c10/pp.go).  The table is the `req` table of the peer string (sbits = allow, hbits = deny),
+plus a row for the zoned host when netip accepts it.
+Answer `provision-error` | `refused` | `addr=<hex> rd=<ok|err>`. -/
+
+def handlePP : List String → String
+  | [allowF, denyF, fb, network, peer, claim, tbl] =>
+    let fbB : Option (Option Bytes) := if fb == "-" then some none else
+      match Hex.decode fb with | some b => (if b.isEmpty then none else some (some b)) | none => none
+    let claimB : Option (Option Bytes) := if claim == "-" then some none else (Hex.decode claim).map some
+    match parseRanges allowF, parseRanges denyF, fbB, Hex.decode network, Hex.decode peer, claimB with
+    | some na, some nd, some fbv, some netw, some peerB, some cl =>
+      -- Provision: a range expression without a slash is never a CIDR; an unknown policy name is an error
+      if (rangeExprs allowF ++ rangeExprs denyF).any (fun e => !e.contains slash) then "provision-error" else
+      match ppFallback fbv with
+      | none => "provision-error"
+      | some pol =>
+        match parseTable na nd tbl with
+        | none => "bad-op"
+        | some table =>
+          match wrapAccept (tableNet table) ⟨idxList 0 na, idxList 1 nd, pol⟩ netw peerB cl with
+          | none => "refused"
+          | some a => "addr=" ++ Hex.encode a.remote ++ " rd=" ++ (if a.readOK then "ok" else "err")
+    | _, _, _, _, _, _ => "bad-op"
+  | _ => "bad-op"
+
 def handle : List String → String
   | "cf" :: rest => handleCF rest
+  | "pp" :: rest => handlePP rest
   | ["req", srvT, cih, strict, hT, omitF, remote, tls, host, hdrs, tbl, failsF, hopsF, modeF, lbF, rtF] =>
     -- `dyn:` = the same ranges answered by a request-scoped IPRangeSource (not among the probe's matcher ranges)
     let dyn := srvT.startsWith "dyn:"
@@ -206,6 +233,9 @@ def handle : List String → String
   | _ => "bad-op"
 
 /-- counter-example lines replayed on the implementation on every run (see Witness.lean) -/
-def witnessLines : List String := []   -- the tree violates no clause of C10 (Witness.lean holds a model fact, not a finding)
+def witnessLines : List String :=
+  [-- Witness.denied_peer_never_believed_full_fails: proxy_protocol wrapper, deny fe80::/10, fallback_policy USE,
+   -- tcp peer [fe80::1%eth0]:1 claiming 6.6.6.6:7777 in a PROXY v1 header
+   "C10 pp . fe80::/10 555345 746370 5b666538303a3a3125657468305d3a31 362e362e362e363a37373737 303a3a:3a3a:-:0:0000;303a3a31:3a3a31:-:0:0010;38303a3a:38303a3a:-:0:0000;38303a3a31:38303a3a31:-:0:0000;3a3a:3a3a:-:0:0000;3a3a31:3a3a31:-:0:0010;6538303a3a:6538303a3a:-:0:0000;6538303a3a31:6538303a3a31:-:0:0000;666538303a3a:666538303a3a:-:1:0001;666538303a3a31:666538303a3a31:-:1:0001;666538303a3a312565746830:666538303a3a312565746830:-:0:0000"]
 
 end CaddyModel.C10
